@@ -87,11 +87,11 @@ EditsQ1 == {<<"n1", "M">>, <<"n4", "P">>}
 EditsQ2a == {<<"n1", "E">>}
 EditsQ2 == {<<"n1", "E">>, <<"n2", "E">>}
 EditsQ3 == {<<"n2", "K">>, <<"n2", "V">>}
-EditsLawEnvQ  == {<<"n4", "P">>, <<"n3", "P">>, <<"n1", "E">>, <<"n2", "E">>, <<"n4", "E">>}
-EditsLawMaskQ == {<<"n4", "P">>, <<"n2", "P">>, <<Root, "M">>, <<"n1", "M">>, <<"n2", "M">>, <<"n4", "K">>}
+EditsLawEnvQ  == {<<"n4", "P">>, <<"n3", "P">>, <<"n1", "E">>, <<"n2", "E">>}
+EditsLawMaskQ == {<<"n4", "P">>, <<"n2", "P">>, <<Root, "M">>, <<"n1", "M">>, <<"n2", "M">>}
 EditsLawEnv  == {<<n, "P">> : n \in {"n1", "n2", "n3", "n4"}} \cup {<<n, "E">> : n \in {"n1", "n2", "n3", "n4"}}
 EditsLawMask == {<<n, "P">> : n \in {"n1", "n2", "n3", "n4"}} \cup {<<n, "M">> : n \in {Root, "n1", "n2", "n4"}}
-                \cup {<<"n2", "K">>, <<"n4", "K">>}
+                \cup {<<"n2", "K">>}
 
 VARIABLES s, dirty
 vars == <<s, dirty>>
